@@ -79,6 +79,37 @@ def rating_marker(role):
     return 'kex-strict-s-v00@openssh.com' if role == 'server' else 'kex-strict-c-v00@openssh.com'
 
 
+def rate_note_leg(ck):
+    """The advisory note next to the other closing notes: a server with the marker whose connection-rate check also earns a note
+    (no --skip-rate-test, a DH key exchange, no throttling) still gets the advisory naming exactly the algorithms due."""
+    S = 'kex-strict-s-v00@openssh.com'
+    shapes = [dict(kex=['diffie-hellman-group14-sha256', 'curve25519-sha256', S], enc=['chacha20-poly1305@openssh.com', 'aes256-ctr'], mac=['hmac-sha2-256']),
+              dict(kex=['diffie-hellman-group16-sha512', S], enc=['aes128-cbc', 'aes256-ctr'], mac=['hmac-sha2-256-etm@openssh.com']),
+              dict(kex=['diffie-hellman-group14-sha256'], enc=['chacha20-poly1305@openssh.com'], mac=['hmac-sha2-256'])]
+    cases = [rating.mk_case(800 + i, kex=sh['kex'], key=['ssh-ed25519'], enc=sh['enc'], mac=sh['mac']) for i, sh in enumerate(shapes)]
+    exp = rating.evaluate(ck, cases)
+    scs = []
+    for c in cases:
+        for v in ('text', 'json'):
+            sc = rating.scenario(c, v)
+            sc['argv'] = [a for a in sc['argv'] if a != '--skip-rate-test']
+            sc['rtt'] = 0.0002
+            scs.append((sc, c, v))
+    for (sc, c, v), r in zip(scs, runner.run_many([x[0] for x in scs])):
+        ck.evaluated()
+        if r.get('harness_error') or r.get('hang'):
+            raise common.Machinery('run failed: %r' % (r.get('harness_error') or 'hang'))
+        replay = {'case': c, 'view': v, 'argv': sc['argv'], 'exit': r['exit'], 'stdout': r['stdout'][-3000:]}
+        if 'throttling' not in r['stdout']:
+            raise common.Machinery('the rate check of this leg was expected to produce its note (it did not): %r' % r['stdout'][-400:])
+        d = rating.compare_terrapin(c, exp[c['id']], text=report.parse_text(r['stdout'])) if v == 'text' else rating.compare_terrapin(c, exp[c['id']], js=report.parse_json(r['stdout']))
+        for sig, desc in d:
+            ck.violation('with-rate-note-' + sig, '[the rate check adds its own note] %s' % desc, replay)
+        if not d:
+            ck.cov['traces_validated_against_impl'] += 1
+            ck.nontrivial(('rate-note', c['id'], v))
+
+
 def sequence_leg(ck, tier):
     """Several servers in one invocation (-T): a server's Terrapin marks are decided by its own KEXINIT, whatever was audited before
     it in the same process (exposed peers before marked ones, paired before unpaired, and the other way round)."""
@@ -148,6 +179,19 @@ def run(tier):
         expected[c['id']] = e
     # 2. rotation through database names and unknown shapes: TLC as oracle
     rot = rotation_cases(tb, rnd, tier)
+    # names the database knows as a cipher *and* as a MAC (chacha20-poly1305@openssh.com, the AEAD names): the mark belongs to the
+    # cipher; the same spelling in the MAC list is not an encrypt-then-MAC MAC
+    cid = max(c['id'] for c in rot) + 1 if rot else 1
+    for role in ('server', 'client'):
+        for strict in (False, True):
+            kx = ['curve25519-sha256'] + ([rating_marker(role)] if strict else [])
+            for enc, mac in ((['chacha20-poly1305@openssh.com', 'aes128-ctr'], ['chacha20-poly1305@openssh.com', 'hmac-sha2-256']),
+                             (['aes128-cbc', 'aes256-gcm@openssh.com'], ['hmac-sha2-256-etm@openssh.com', 'chacha20-poly1305@openssh.com', 'aes256-gcm']),
+                             (['aes128-ctr'], ['chacha20-poly1305@openssh.com', 'AEAD_AES_128_GCM'])):
+                c = rating.mk_case(cid, role=role, kex=kx, key=['ssh-ed25519'], enc=enc, mac=mac)
+                c['tag'] = 'two-category-name'
+                rot.append(c)
+                cid += 1
     expected.update(rating.evaluate(ck, rot))
     cases += rot
     ck.log('%d rotated cases evaluated by TLC' % len(rot))
@@ -188,6 +232,7 @@ def run(tier):
                        [l['name'] for cat in ('enc', 'mac') for l in exp['lines'][cat] if rating.TERRAPIN in l['warn']],
                        'expected_advisory': exp['advisory']})
     sequence_leg(ck, tier)
+    rate_note_leg(ck)
     ck.cov['rule'] = ('TLC enumerates every class role{server,client} x marker{none,S,C,both} x ChaCha{0,1,2} x CBC{0,1,2} x ETM{0,1,2} x other cipher/MAC '
                       'present or not (enc and mac non-empty) and decides TerrapinExact on each; plus rotation of every database CBC/ChaCha/ETM name and '
                       'unknown names of the same shape through role x marker x paired/unpaired contexts, expected reports from TLC; each case replayed '
